@@ -17,4 +17,12 @@ PROPS = {
         statement="forall parsed lines without duplicate sibling keys, forall configurations with --redactFieldNames off: shapeEq input (redactLine input)",
         partial="byte level (one physical line, valid JSON, parse . print round trip) is covered by the print/parse correspondence and the oracle, not yet by a theorem",
     ),
+    "C18": dict(
+        module="Anonymongo.Props.C18",
+        theorems=["Anonymongo.Cli.C18_exact", "Anonymongo.Cli.C18_clean", "Anonymongo.Cli.C18_modes"],
+        corr=[],
+        statement="forall 2^13 presence/absence valuations (decided in the kernel): validate accepts iff Spec.wellDefined; a rejection has no effect but stderr+exit 1; an accepted job enters exactly one mode",
+        partial="the transliteration of main.go's validation chain (Model/Cli.lean) is tied to the code by running the real CLI on the combinations (exhaustively in the thorough tier) and comparing with the model; cobra/pflag parsing and the OS are runtime",
+        trusted=["spf13/cobra + pflag flag parsing, os.Stdin.Stat(), os.Create: exercised through the real binary, not modelled"],
+    ),
 }
